@@ -25,5 +25,7 @@ def run(tier, seed):
     wiring.visit_reaches_every_child(rep, tier)
     rep.assumptions.append('expansion semantics on paper: the callee body, being a rule function over python locals, behaves as the body with each '
                            'parameter replaced by the argument value (C05 frame); _run\'s same-outcome clause (C07) needs == keys to have equal outcomes')
+    # the scope tracker that decides which names are local / captured (bounded stand-in for a data-structure contract)
+    wiring.symbol_counter_obligations(rep, tier)
     dependency_layer(rep, tier)
     return rep.finish()
